@@ -5,7 +5,17 @@ deterministic function of the program and the options, so the two sides must agr
   * the multiset of end states (outcome kind, pc at the end),
   * the number of bounded-loop flags, whether the --depth warning was raised,
   * for a few concrete inputs per program: the end states whose path the input satisfies, each with its return / revert
-    data evaluated under the input (the implementation's terms by vlib.zeval, the model's by the Lean driver).
+    data and the non-zero plain storage / transient storage slots of the executing account evaluated under the input
+    (the implementation's terms by vlib.zeval, the model's by the Lean driver).
+Storage instructions are generated on the literal slots 0..3 only (hashed / symbolic slots are outside the core model);
+one program in ten that stores runs in a static frame (WriteInStaticContext).
+Message calls (Model.SevmCalls): half of the programs come with one or two callee contracts (0x3000, and 0x2000 which
+may call 0x3000) and are built around call sites — CALL / CALLCODE with value 0, DELEGATECALL, STATICCALL to a callee or
+to the code-less 0x4000, plain arguments in a scratch area, possibly dirty return areas of every size, the success flag
+and RETURNDATASIZE stored into the memory the program finally returns, RETURNDATACOPY, calls inside loops, nested calls,
+static callers; callees store msg.sender / address / calldatasize and write storage before returning, reverting or
+failing. The storage of *every* account is compared. Not generated: symbolic targets, precompiles and cheat-code
+addresses, non-zero value, memory-limit violations inside callees (see the header of Model/SevmCalls.lean).
 
 What the generator deliberately avoids, because there the model is an approximation or z3's simplifier is stronger than
 the driver's (Driver/Sevm.lean: constant folding + double-negation elimination):
@@ -33,8 +43,10 @@ BIN = ["ADD", "MUL", "SUB", "DIV", "SDIV", "MOD", "SMOD", "LT", "GT", "SLT", "SG
 class CoreGen:
     """programs over the core set (see the module docstring for what is avoided and why)"""
 
-    def __init__(self, rng, nargs):
+    def __init__(self, rng, nargs, callee=False, targets=()):
         self.rng, self.nargs, self.n = rng, nargs, 0
+        self.callee = callee            # a callee contract: calldata = 2 words without selector, no loops
+        self.targets = list(targets)    # addresses this program may call
         self.hist = {}
         self.loop_args = list(range(nargs))     # arguments not yet used as a loop trip count
         rng.shuffle(self.loop_args)
@@ -57,7 +69,16 @@ class CoreGen:
 
     def arg(self, i=None):
         i = self.rng.randrange(self.nargs) if i is None else i
-        return [("push", 4 + 32 * i), "CALLDATALOAD"]
+        return [("push", (0 if self.callee else 4) + 32 * i), "CALLDATALOAD"]
+
+    def plain(self):
+        r = self.rng
+        k = r.random()
+        if k < 0.6:
+            return self.arg()
+        if k < 0.85:
+            return [("push", r.choice(CONST))]
+        return [r.choice(["CALLER", "CALLVALUE", "ORIGIN", "ADDRESS"])]
 
     def expr(self, d):
         r = self.rng
@@ -68,8 +89,12 @@ class CoreGen:
             if k < 0.55:
                 self.count("mem:MLOAD")
                 # reads do not allocate: the `MAX_MEMORY_SIZE` boundary of `mloc(check_size=True)` is probed here
-                off = r.choice(MEMOFF) if r.random() < 0.93 else r.choice([1 << 20, 1 << 20, (1 << 20) + 1])
+                off = r.choice(MEMOFF) if (self.callee or r.random() < 0.93) else r.choice([1 << 20, 1 << 20, (1 << 20) + 1])
                 return [("push", off), "MLOAD"]
+            if k < 0.63:
+                op = r.choice(["SLOAD", "SLOAD", "TLOAD"])
+                self.count("sto:" + op)
+                return [("push", r.randrange(4)), op]
             if k < 0.85:
                 return [("push", r.choice(CONST))]
             return [r.choice(["CALLER", "CALLVALUE", "ORIGIN", "ADDRESS", "CALLDATASIZE", "PC"])]
@@ -101,17 +126,36 @@ class CoreGen:
 
     def stmt(self, d):
         r = self.rng
-        k = r.choice(["pop", "mstore", "mstore", "mstore8", "copy", "if", "if", "loop", "dupswap"] if d > 0
-                     else ["pop", "mstore", "copy", "dupswap"])
+        kinds = (["pop", "mstore", "mstore", "mstore8", "copy", "sstore", "sstore", "if", "if", "loop", "dupswap"] if d > 0
+                 else ["pop", "mstore", "copy", "sstore", "dupswap"])
+        if self.callee:
+            kinds = [k for k in kinds if k != "loop"]
+        if self.targets:
+            kinds += ["call", "call", "call"] if d > 0 else ["call"]
+        k = r.choice(kinds)
         self.count("stmt:" + k)
+        if k == "call":
+            return self.call_site()
+        if k == "sstore":
+            op = r.choice(["SSTORE", "SSTORE", "TSTORE"])
+            self.count("sto:" + op)
+            slot = r.randrange(4)
+            out = self.expr(2) + [("push", slot), op]
+            if r.random() < 0.6:
+                # read the slot back — from either kind of storage — into memory, where the final RETURN shows it
+                ld = r.choice(["SLOAD", "TLOAD"])
+                self.count("sto:" + ld)
+                out += [("push", slot), ld, ("push", r.choice([0, 32, 64, 96])), "MSTORE"]
+                self.count("mem:MSTORE")
+            return out
         if k == "copy":
             op = r.choice(["CALLDATACOPY", "CODECOPY"])
             self.count("mem:" + op)
-            size = r.choice([0, 1, 4, 32, 36, 64]) if r.random() < 0.95 else r.choice([(1 << 20) + 1, 1 << 30])
+            size = r.choice([0, 1, 4, 32, 36, 64]) if (self.callee or r.random() < 0.95) else r.choice([(1 << 20) + 1, 1 << 30])
             return [("push", size), ("push", r.choice([0, 0, 3, 4, 36, 100, 1 << 30])), ("push", r.choice(MEMOFF)), op]
         if k == "mstore":
             self.count("mem:MSTORE")
-            off = r.choice(MEMOFF) if r.random() < 0.97 else r.choice([(1 << 20) + 1, 1 << 30])   # never a valid huge write: the model's memory is a list
+            off = r.choice(MEMOFF) if (self.callee or r.random() < 0.97) else r.choice([(1 << 20) + 1, 1 << 30])   # never a valid huge write: the model's memory is a list
             return self.expr(2) + [("push", off), "MSTORE"]
         if k == "mstore8":
             self.count("mem:MSTORE8")
@@ -125,7 +169,12 @@ class CoreGen:
             els, end = self.fresh(), self.fresh()
             return (self.cond() + [("ref", els), "JUMPI"] + self.block(d - 1) + [("ref", end), "JUMP", ("label", els)]
                     + self.block(d - 1) + [("label", end)])
-        # loop: the counter lives on the stack; a symbolic trip count uses an argument no other loop counts on
+        return self.loop()
+
+    def loop(self, body=None):
+        # the counter lives on the stack; a symbolic trip count uses an argument no other loop counts on
+        r = self.rng
+        body = self.block(0) if body is None else body
         top, end = self.fresh(), self.fresh()
         symbolic = bool(self.loop_args) and r.random() < 0.6
         if symbolic:
@@ -141,10 +190,81 @@ class CoreGen:
             # condition true and the real engine, rightly, loops 2^256 times).
             self.count("loop:do-while")
             n = (n + [("push", 1), "ADD"]) if symbolic else [("push", r.randrange(1, 4))]
-            return (n + [("label", top)] + self.block(0)
+            return (n + [("label", top)] + body
                     + [("push", 1), "SWAP1", "SUB", "DUP1", ("ref", top), "JUMPI", "POP"])
-        return (n + [("label", top), "DUP1", "ISZERO", ("ref", end), "JUMPI"] + self.block(0)
+        return (n + [("label", top), "DUP1", "ISZERO", ("ref", end), "JUMPI"] + body
                 + [("push", 1), "SWAP1", "SUB", ("ref", top), "JUMP", ("label", end), "POP"])
+
+    def call_site(self):
+        """a message call: arguments in a scratch area written by aligned MSTOREs only (0x100, 0x120), a return area
+        that may be dirty, the success flag and RETURNDATASIZE stored where the final RETURN shows them, sometimes a
+        RETURNDATACOPY"""
+        r = self.rng
+        op = r.choice(["CALL", "CALL", "STATICCALL", "DELEGATECALL", "CALLCODE"])
+        to = r.choice(self.targets + [0x4000])          # 0x4000: an account without code
+        self.count("call:" + op)
+        self.count("call:to-" + ("nocode" if to == 0x4000 else "code"))
+        out = []
+        asize = r.choice([0, 32, 64, 64])
+        for w in range(asize // 32):
+            # plain arguments (a calldata word, a literal, an environment value): nothing z3 could fold further than the
+            # driver's simplifier, so that the callee's branches on them are symbolic / concrete on both sides alike
+            out += self.plain() + [("push", 0x100 + 32 * w), "MSTORE"]
+        roff, rsize = r.choice([0, 32, 64, 0x140]), r.choice([0, 1, 32, 32, 64])
+        if r.random() < 0.5:                            # dirty return area
+            out += self.expr(1) + [("push", roff), "MSTORE"]
+        out += [("push", rsize), ("push", roff), ("push", asize), ("push", 0x100)]
+        if op in ("CALL", "CALLCODE"):
+            out += [("push", 0)]
+        out += [("push", to), ("push", r.choice([0, 0xFFFF, 1 << 40])), op]
+        k = r.random()
+        if k < 0.5:
+            out += [("push", r.choice([0, 96, 0x160])), "MSTORE"]     # the success flag
+        elif k < 0.7:
+            out += ["POP", "RETURNDATASIZE", ("push", r.choice([32, 96, 0x160])), "MSTORE"]
+        else:
+            out += ["POP"]
+        if r.random() < 0.3:
+            self.count("call:RETURNDATACOPY")
+            out += [("push", r.choice([0, 1, 32, 33, 64])), ("push", r.choice([0, 0, 1, 32])),
+                    ("push", r.choice([0, 64, 0x180])), "RETURNDATACOPY"]
+        self.count("mem:MSTORE")
+        return out
+
+    def callee_program(self):
+        """a small callee: a few statements, maybe a branch on its calldata, then return / revert / invalid / stop"""
+        r = self.rng
+        items = []
+        if r.random() < 0.8:
+            # make the frame's context and its writes observable: msg.sender / address / value into memory (returned) or
+            # storage (compared per account; rolled back if the frame fails; refused in a static frame)
+            items += r.choice([
+                ["CALLER", ("push", 0), "MSTORE"], ["ADDRESS", ("push", 32), "MSTORE"], ["CALLVALUE", ("push", 0), "MSTORE"],
+                ["CALLER", ("push", 3), "SSTORE"], ["ADDRESS", ("push", 2), "TSTORE"], [("push", 7), ("push", 1), "SSTORE"],
+                ["CALLDATASIZE", ("push", 32), "MSTORE"],
+            ])
+            self.count("callee:prelude")
+        if self.targets and r.random() < 0.6:
+            items += self.call_site()           # a nested call (the static flag must be inherited through it)
+        for _ in range(r.randrange(0, 3)):
+            items += self.stmt(1)
+        k = r.random()
+        size, off = r.choice([0, 32, 64, 64, 33]), r.choice([0, 0, 32])
+        if k < 0.55:
+            fin = [("push", size), ("push", off), "RETURN"]
+        elif k < 0.8:
+            fin = [("push", size), ("push", off), "REVERT"]
+        elif k < 0.9:
+            fin = ["INVALID"]
+        else:
+            fin = ["STOP"]
+        self.count("callee:" + (fin[-1]))
+        if r.random() < 0.4:
+            alt = self.fresh()
+            items += self.cond() + [("ref", alt), "JUMPI"] + fin + [("label", alt)] + \
+                self.stmt(0) + [("push", 32), ("push", 0), r.choice(["RETURN", "REVERT"])]
+            return items
+        return items + fin
 
     def block(self, d):
         out = []
@@ -175,6 +295,22 @@ class CoreGen:
 
     def program(self):
         items = []
+        if self.targets:
+            # a caller: one to three call sites between a few other statements, then (mostly) return the whole scratch
+            # memory — success flags, RETURNDATASIZE, return areas — so that every call is observable
+            for _ in range(self.rng.randrange(1, 4)):
+                if self.rng.random() < 0.5:
+                    items += self.stmt(1)
+                if self.rng.random() < 0.25:
+                    # a call inside a loop: the caller's visit counters must survive the callee (which starts with none)
+                    self.count("call:in-loop")
+                    items += self.loop(self.call_site())
+                else:
+                    items += self.call_site()
+            if self.rng.random() < 0.85:
+                self.count("mem:RETURN-all")
+                return items + [("push", 0x1a0), ("push", 0), self.rng.choice(["RETURN", "RETURN", "REVERT"])]
+            return items + self.end()
         for _ in range(self.rng.randrange(1, 5)):
             items += self.stmt(2)
         if self.rng.random() < 0.4:
@@ -192,7 +328,15 @@ def impl_summary(code: bytes, nargs: int, loop: int, depth: int, oracle: str):
     return impl_run(code, nargs, loop, depth, oracle)[0]
 
 
-def impl_run(code: bytes, nargs: int, loop: int, depth: int, oracle: str):
+def impl_run(code: bytes, nargs: int, loop: int, depth: int, oracle: str, callees=None):
+    """`oracle` is `unknown` or `sat`, optionally followed by `+static` (the frame runs with is_static set);
+    `callees`: address -> code of the other accounts"""
+    static = oracle.endswith("+static")
+    oracle = oracle.split("+")[0]
+    return _impl_run(code, nargs, loop, depth, oracle, static, callees or {})
+
+
+def _impl_run(code: bytes, nargs: int, loop: int, depth: int, oracle: str, static: bool, callees: dict):
     """the real SEVM with Path.check answering `oracle` to every query; 8 s watchdog. Returns (summary, SymRun | None)"""
     import signal
     import sys
@@ -219,7 +363,7 @@ def impl_run(code: bytes, nargs: int, loop: int, depth: int, oracle: str):
     signal.setitimer(signal.ITIMER_REAL, 8.0, 0.5)   # repeating: halmos may swallow the first TimeoutError
     sr = None
     try:
-        scn = D.Scenario({D.MAIN: code}, nargs=nargs)
+        scn = D.Scenario({D.MAIN: code, **callees}, nargs=nargs, static=static)
         sr = D.symbolic_run(scn, loop=loop, depth=depth)
     except TimeoutError:
         return "timeout", None
@@ -251,6 +395,28 @@ def _kind(p):
     return k
 
 
+def _storage(pe, ex):
+    """the non-zero plain (scalar) slots of every account, evaluated: `<addr>.s<slot>=<value>;` / `<addr>.t<slot>=…;`
+    by address, storage before transient storage, by slot (the format of the Lean driver's `eval`)"""
+    addrs = {}
+    for transient, store in ((False, ex.storage), (True, ex.transient_storage)):
+        for addr, st in store.items():
+            a = addr.as_long() if hasattr(addr, "as_long") else int(addr)
+            for key, val in st._mapping.items():
+                if isinstance(key, tuple) and len(key) == 3 and key[1] == 0 and key[2] == 0:
+                    v = val if isinstance(val, int) else int(pe.ev(val))
+                    if v:
+                        addrs.setdefault(a, {})[(transient, key[0])] = v
+                else:       # a non-scalar entry: outside the core, shows up as a mismatch
+                    addrs.setdefault(a, {})[(transient, -1)] = 1
+    out = []
+    for a in sorted(addrs):
+        for (transient, slot) in sorted(addrs[a]):
+            out.append(f"{a:x}.{'t' if transient else 's'}{slot:x}={addrs[a][(transient, slot)]:x};" if slot >= 0
+                       else f"{a:x}.{'t' if transient else 's'}?;")
+    return "".join(out)
+
+
 def impl_eval(sr, inputs):
     """the end states of the real run whose path conditions `inputs` satisfies, with their data evaluated (vlib.zeval)"""
     out = []
@@ -259,7 +425,7 @@ def impl_eval(sr, inputs):
         if not pe.satisfies(p.conds):
             continue
         data = pe.bytes_of(p.data) if p.data is not None else b""
-        out.append(f"{_kind(p)}@{p.ex.pc}:{(data or b'').hex()}")
+        out.append(f"{_kind(p)}@{p.ex.pc}:{(data or b'').hex()}:{_storage(pe, p.ex)}")
     return "sat=" + (",".join(sorted(out)) if out else "-")
 
 
@@ -298,22 +464,41 @@ def compare_core(ctx, n):
     progs, q = [], []
     for _ in range(n):
         nargs = rng.choice([1, 2, 3, 4])
-        g = CoreGen(rng, nargs)
+        callees = {}
         try:
+            if rng.random() < 0.5:
+                # one or two callee contracts; 0x2000 may call 0x3000; the program under test may call both
+                g3 = CoreGen(rng, 2, callee=True)
+                callees[0x3000] = asm.assemble(g3.callee_program())
+                hists = [g3.hist]
+                if rng.random() < 0.6:
+                    g2 = CoreGen(rng, 2, callee=True, targets=[0x3000])
+                    callees[0x2000] = asm.assemble(g2.callee_program())
+                    hists.append(g2.hist)
+                for h in hists:
+                    for k, v in h.items():
+                        ctx.count("core:callee:" + k, v)
+            g = CoreGen(rng, nargs, targets=sorted(callees))
             code = asm.assemble(g.program())
         except asm.AsmError:
             continue
+        ctx.count("core:with-callees" if callees else "core:single-contract")
         for k, v in g.hist.items():
             ctx.count("core:" + k, v)
         loop = rng.choice([1, 2, 2, 3])
         oracle = rng.choice(["unknown", "unknown", "sat"])
-        progs.append((code, nargs, loop, oracle, g))
-        q.append(f"steps {code.hex()} {nargs} {loop} 20000 {oracle}")
+        if (any(k in g.hist for k in ("sto:SSTORE", "sto:TSTORE")) and rng.random() < 0.1) or (callees and rng.random() < 0.15):
+            oracle += "+static"
+            ctx.count("core:static-frame")
+        pre = ["nocode"] + [f"code {a:x} {c.hex()}" for a, c in sorted(callees.items())]
+        progs.append((code, nargs, loop, oracle, g, callees, pre))
+        q += pre + [f"steps {code.hex()} {nargs} {loop} 20000 {oracle}"]
     drv = ctx.lean("Sevm")
     # --depth is placed at the exact number of worklist iterations of the run (and one below / above), where an
     # off-by-one in the cut or in the number of steps a branch takes changes the set of end states
     cases, lines = [], []
-    for (code, nargs, loop, oracle, g), rep in zip(progs, drv.ask(q)):
+    steps_replies = [r for r in drv.ask(q) if r != "ok"]
+    for (code, nargs, loop, oracle, g, callees, pre), rep in zip(progs, steps_replies):
         total = int(rep.split("=", 1)[1]) if rep.startswith("steps=") else 0
         pick = rng.random()
         if total <= 1 or pick < 0.4:
@@ -323,21 +508,22 @@ def compare_core(ctx, n):
         else:
             depth = rng.randrange(1, total + 1)
         ins = [_inputs(rng, g, nargs) for _ in range(3)]
-        cases.append((code, nargs, loop, depth, oracle, ins))
+        cases.append((code, nargs, loop, depth, oracle, ins, callees))
+        lines += pre
         lines.append(f"run {code.hex()} {nargs} {loop} {depth} 20000 {oracle}")
         for x in ins:
             lines.append(f"eval {code.hex()} {nargs} {loop} {depth} 20000 {oracle} {','.join(f'{a:x}' for a in x.args)} "
                          f"{x.caller:x} {x.origin:x} {x.value:x}")
-    replies = iter(drv.ask(lines))
+    replies = iter(r for r in drv.ask(lines) if r != "ok")
     stale = []
-    for (code, nargs, loop, depth, oracle, ins) in cases:
+    for (code, nargs, loop, depth, oracle, ins, callees) in cases:
         rep = next(replies)
         evals = [next(replies) for _ in ins]
-        impl, sr = impl_run(code, nargs, loop, depth, oracle)
+        impl, sr = impl_run(code, nargs, loop, depth, oracle, callees)
         model = _canon(rep.replace("!", "").rsplit(" fuelout=", 1)[0])   # `!` = the model's tag of the jumpi-invalid-dest site
         impl = _canon(impl)
         ctx.case(("core", code, loop, depth, oracle))
-        ctx.count("core:oracle-" + oracle)
+        ctx.count("core:oracle-" + oracle.split("+")[0])
         ctx.count("core:depth-limited" if depth else "core:depth-unlimited")
         if " fuelout=1" in rep:
             # the model's 20000 steps did not suffice (e.g. a loop whose conditions start repeating is followed for ever
@@ -347,13 +533,13 @@ def compare_core(ctx, n):
         if impl == "timeout":
             # the model finished but the real engine did not come back within 8 s: a divergence (non-termination)
             ctx.count("core:impl-timeout-8s")
-            stale.append({"code": code.hex(), "nargs": nargs, "loop": loop, "depth": depth, "oracle": oracle,
+            stale.append({"code": code.hex(), "callees": {hex(a): c.hex() for a, c in callees.items()}, "nargs": nargs, "loop": loop, "depth": depth, "oracle": oracle,
                           "impl": "timeout(8s)", "model": model[:300]})
             continue
         ctx.count("core:bounded" if "bounded=0" not in impl else "core:unbounded")
         ctx.count("core:depthcut" if "depthcut=1" in impl else "core:no-depthcut")
         if impl != model:
-            stale.append({"code": code.hex(), "nargs": nargs, "loop": loop, "depth": depth, "oracle": oracle,
+            stale.append({"code": code.hex(), "callees": {hex(a): c.hex() for a, c in callees.items()}, "nargs": nargs, "loop": loop, "depth": depth, "oracle": oracle,
                           "impl": impl[:300], "model": model[:300]})
             continue
         # same exploration: now the data of the paths each concrete input takes
@@ -366,9 +552,12 @@ def compare_core(ctx, n):
             mrep = _canon_eval(mrep.replace("!", ""))
             ctx.count("core:inputs-evaluated")
             if irep != "sat=-":
-                ctx.count("core:inputs-with-data" if any(e.split(":", 1)[1] for e in irep[4:].split(",")) else "core:inputs-without-data")
+                ents = [e.split(":") for e in irep[4:].split(",")]
+                ctx.count("core:inputs-with-data" if any(len(e) > 1 and e[1] for e in ents) else "core:inputs-without-data")
+                if any(len(e) > 2 and e[2] for e in ents):
+                    ctx.count("core:inputs-with-storage")
             if irep != mrep:
-                stale.append({"code": code.hex(), "nargs": nargs, "loop": loop, "depth": depth, "oracle": oracle,
+                stale.append({"code": code.hex(), "callees": {hex(a): c.hex() for a, c in callees.items()}, "nargs": nargs, "loop": loop, "depth": depth, "oracle": oracle,
                               "input": {"args": [hex(a) for a in x.args], "caller": hex(x.caller), "origin": hex(x.origin),
                                         "value": hex(x.value)},
                               "impl": irep[:300], "model": mrep[:300]})
